@@ -1,11 +1,150 @@
-/- C07: translation-time constant evaluation equals run-time evaluation (theorems; in progress) -/
-import ChibiVerif.Model.ConstElab
+/- C07 — translation-time constant evaluation equals run-time evaluation.
+
+   `Gen.ConstEval.eval2` is the translation of parse.c `eval2`/`eval3`/`eval_truth` (clang-typed, regenerated on every run);
+   `elabE` is the tree the parser and `add_type` build for an expression; `Spec.Const.eval` is the C11 value
+   (`none` where C11 gives none); `img v` is the `int64_t` holding the value `v`.
+   Values are stated for the wrapping host (`HostMode.wrapping`: signed overflow of the *host* arithmetic wraps, as in
+   the shipped x86-64 binary); `Findings/C07.lean` shows what the strict host reading gives.
+   Only property theorems here; lemmas are in Lemmas/ConstEvalLemmas.lean. -/
+import ChibiVerif.Lemmas.ConstEvalLemmas
+set_option linter.unusedSimpArgs false
 
 namespace ChibiVerif.Props.C07
-open ChibiVerif.Host ChibiVerif.Gen.ConstEval ChibiVerif.Spec.Const ChibiVerif.ConstElab
+open ChibiVerif.Host ChibiVerif.Gen.ConstEval ChibiVerif.Spec.Const ChibiVerif.ConstElab ChibiVerif.ConstEvalLemmas
 
-/-- placeholder while the proofs are being built -/
-theorem C07_smoke : eval2 .wrapping noFp (elabE (.bin .add (.un .neg (.lit .i32 1)) (.lit .i32 0))) false = .ok (BitVec.ofInt 64 (-1)) := by
-  decide
+/-- **Folding equals the C11 value.**  For every integer constant expression `e` (every operator, cast to every integer type
+    and `_Bool`, literal of every type, any depth, every operand value) that has a C11 value `v`: the value lies in the range
+    of the C11 type of `e`, and the folder returns exactly the `int64_t` image of `v` — the value the same expression has
+    at run time under C11 typing.  Holds for every floating-evaluation environment (`fp` is never consulted) and with or
+    without a relocation label. -/
+theorem C07_fold (fp : FpEnv) (e : CExpr) (v : Int) (h : Spec.Const.eval e = some v) :
+    (typeOf e).inRange v = true ∧ ∀ label, eval2 .wrapping fp (elabE e) label = .ok (BitVec.ofInt 64 v) :=
+  fold_main fp e v h
+
+/-- non-vacuity: `~0u >> 1` (unsigned, 2147483647) and `(-1 + 0)` through a cast to `long` -/
+example : Spec.Const.eval (.bin .shr (.un .bitnot (.lit .u32 0)) (.lit .i32 1)) = some 2147483647 := by decide
+example : Spec.Const.eval (.cast .i64 (.bin .add (.un .neg (.lit .i32 1)) (.lit .i32 0))) = some (-1) := by decide
+
+/-- **Division and remainder by zero are diagnosed.**  Whenever both operands have values and the (converted) divisor is
+    zero, folding `a / b` or `a % b` ends in the diagnostic — not in a host trap. -/
+theorem C07_undefined_diag (fp : FpEnv) (a b : CExpr) (x y : Int) (op : BinOp) (hop : op = .div ∨ op = .mod)
+    (ha : Spec.Const.eval a = some x) (hb : Spec.Const.eval b = some y)
+    (hz : (ITy.common (typeOf a) (typeOf b)).convert y = 0) :
+    Spec.Const.eval (.bin op a b) = none ∧
+    ∀ label, eval2 .wrapping fp (elabE (.bin op a b)) label = .error (.diag "division by zero in a constant expression") := by
+  have fa := fold_main fp a x ha
+  have fb := fold_main fp b y hb
+  have hl := cast_ok fp (ITy.common (typeOf a) (typeOf b)) fa
+  have hr := cast_ok fp (ITy.common (typeOf a) (typeOf b)) fb
+  rw [hz] at hr
+  rcases hop with h | h <;> subst h
+  · refine ⟨by simp [Spec.Const.eval, ha, hb, BinOp.isShift, binop, hz], fun label => ?_⟩
+    simp only [elabE, mkArith, bin, elab_ty, gct_descr]
+    rw [eval2_DIV _ _ _ _ _ _ _ _ _ _ (descr_not_flonum _)]
+    simp only [hl, hr, bind, Except.bind, divmod]; rfl
+  · refine ⟨by simp [Spec.Const.eval, ha, hb, BinOp.isShift, binop, hz], fun label => ?_⟩
+    simp only [elabE, mkArith, bin, elab_ty, gct_descr]
+    rw [eval2_MOD _ _ _ _ _ _ _ _ _ _ (descr_not_flonum _)]
+    simp only [hl, hr, bind, Except.bind, divmod]; rfl
+
+example : (ITy.common (typeOf (.lit .i32 1)) (typeOf (.bin .sub (.lit .u8 2) (.lit .i64 2)))).convert 0 = 0 := by decide
+
+/-- **The folder never traps.**  On *every* expression tree — operands defined in C11 or not, `INT64_MIN / -1`,
+    `x % -1`, any shift count — folding ends in a value, in a diagnostic, or (only for a shift count outside 0..63, which C11
+    leaves undefined and x86 masks) in the host's undefined shift; never in SIGFPE, a NULL dereference or an unmodelled arm. -/
+theorem C07_no_trap (fp : FpEnv) (e : CExpr) (label : Bool) (f : Fail)
+    (h : eval2 .wrapping fp (elabE e) label = .error f) :
+    (∃ msg, f = .diag msg) ∨ f = .hostUB "shift count out of range" := by
+  have := no_trap fp e label f h
+  cases f with
+  | diag m => exact Or.inl ⟨m, rfl⟩
+  | hostUB w => right; simp only [Benign] at this; rw [this]
+  | crash w => exact absurd this (by simp [Benign])
+  | unmodelled w => exact absurd this (by simp [Benign])
+
+/-- **`INT_MIN / -1` and `x % -1` fold without a trap**: a signed division whose (converted) divisor is not zero always
+    yields a value — the truncated quotient wrapped to the type, so `LONG_MIN / -1` gives `LONG_MIN` — and the remainder is
+    the C remainder. -/
+theorem C07_division_total (fp : FpEnv) (a b : CExpr) (x y : Int)
+    (ha : Spec.Const.eval a = some x) (hb : Spec.Const.eval b = some y)
+    (hz : (ITy.common (typeOf a) (typeOf b)).convert y ≠ 0) (label : Bool) :
+    eval2 .wrapping fp (elabE (.bin .div a b)) label
+      = .ok (BitVec.ofInt 64 ((ITy.common (typeOf a) (typeOf b)).convert
+          (((ITy.common (typeOf a) (typeOf b)).convert x).tdiv ((ITy.common (typeOf a) (typeOf b)).convert y)))) ∧
+    eval2 .wrapping fp (elabE (.bin .mod a b)) label
+      = .ok (BitVec.ofInt 64 (((ITy.common (typeOf a) (typeOf b)).convert x).tmod ((ITy.common (typeOf a) (typeOf b)).convert y))) := by
+  have fa := fold_main fp a x ha
+  have fb := fold_main fp b y hb
+  have hw : Wide (ITy.common (typeOf a) (typeOf b)) := common_wide _ _
+  simp only [elabE, mkArith, bin, elab_ty, gct_descr]
+  generalize ITy.common (typeOf a) (typeOf b) = t at hz hw ⊢
+  have hl := cast_ok fp t fa
+  have hr := cast_ok fp t fb
+  have hx := convert_inRange t x
+  have hy := convert_inRange t y
+  constructor
+  · rw [eval2_DIV _ _ _ _ _ _ _ _ _ _ (descr_not_flonum _)]
+    simp only [hl, hr, bind, Except.bind, pure, Except.pure, divmod_div t _ _ hw hx hy hz, wrap_convert t hw.ne_bool]
+  · rw [eval2_MOD _ _ _ _ _ _ _ _ _ _ (descr_not_flonum _)]
+    simp only [hl, hr, bind, Except.bind, pure, Except.pure, divmod_mod t _ _ hw hx hy hz, wrap_convert t hw.ne_bool,
+      convert_id t _ (tmod_inRange t _ _ hw hx hy)]
+
+/-- `LONG_MIN / -1` folds to `LONG_MIN` (kernel-evaluated instance) -/
+example : eval2 .wrapping noFp (elabE (.bin .div (.bin .sub (.un .neg (.lit .i64 9223372036854775807)) (.lit .i32 1))
+    (.un .neg (.lit .i32 1)))) false = .ok (BitVec.ofInt 64 (-9223372036854775808)) := by decide
+
+/-- **Constness, full statement**: every integer constant expression in the sense of C11 6.6p6 (it has a value) is accepted
+    by `is_const_expr`, so an array whose bound it is is an array, not a VLA.  Not provable for the code as it is: see
+    `Findings/C07.lean` (`1 || (1/0 ? 1 : 2)` is answered with the division diagnostic).  Proved below for expressions all of
+    whose `?:` conditions have values. -/
+def C07_constness_Statement : Prop :=
+  ∀ (fp : FpEnv) (e : CExpr) (v : Int), Spec.Const.eval e = some v → isConstExpr .wrapping fp (elabE e) = .ok true
+
+/-- **Constness (accepted)**: trees built from the integer-constant-expression operators of C11 6.6p6 — including `%` —
+    are constant expressions for `is_const_expr`, provided every `?:` condition inside has a value (`condsDefined`, decidable). -/
+theorem C07_constness_partial (fp : FpEnv) (e : CExpr) (h : condsDefined e = true) :
+    isConstExpr .wrapping fp (elabE e) = .ok true :=
+  isConst_elab fp e h
+
+/-- non-vacuity: `7 % 4` (the array bound the pinned tree turned into a VLA), and a `?:` -/
+example : condsDefined (.bin .mod (.lit .i32 7) (.lit .i32 4)) = true := by decide
+example : condsDefined (.cond (.bin .lt (.lit .i32 1) (.lit .u32 2)) (.lit .i64 3) (.bin .div (.lit .i32 1) (.lit .i32 0))) = true := by decide
+
+/-- **Constness (sound)**: on *any* node tree (not only elaborated ones), if `is_const_expr` accepts it then folding it
+    never answers "not a compile-time constant" — the predicate that decides array-vs-VLA never lets the folder reach an arm
+    it cannot fold.  (`FpClean`: the abstract floating evaluator does not produce that diagnostic itself.) -/
+theorem C07_constness_sound (fp : FpEnv) (hfp : FpClean fp) (n : CNode) (h : isConstExpr .wrapping fp n = .ok true)
+    (label : Bool) : eval2 .wrapping fp n label ≠ .error (.diag "not a compile-time constant") :=
+  const_no_ncc fp hfp n h label
+
+example : FpClean noFp := noFp_clean
+example : isConstExpr .wrapping noFp (elabE (.bin .mod (.lit .i32 7) (.lit .i32 4))) = .ok true := by decide
+
+/-- **Consumers.**  Each place that stores a folded constant keeps the C11 conversion of the value to the consumer's type:
+    enumerator (`int val`), array bound (`array_of(int len)`), bit-field width, `_Alignas` / `aligned`, array designator
+    bounds, initializer-element counter (all `int`: exact for every value an `int` holds), case labels (`long begin/end`:
+    exact for every `long`), and static initializers (`write_gvar_data`: the object receives the C11 conversion of the
+    value to the object's type, `_Bool` by comparison with zero, every other integer type modulo 2^N). -/
+theorem C07_consumers :
+    (∀ v : Int, ITy.inRange .i32 v = true →
+        (store_enum_specifier_val (BitVec.ofInt 64 v)).toInt = v ∧
+        (store_array_dimensions_array_of_len (BitVec.ofInt 64 v)).toInt = v ∧
+        (store_struct_members_mem_bit_width (BitVec.ofInt 64 v)).toInt = v ∧
+        (store_declspec_attr_align (BitVec.ofInt 64 v)).toInt = v ∧
+        (store_attribute_list_ty_align (BitVec.ofInt 64 v)).toInt = v ∧
+        (store_array_designator_begin (BitVec.ofInt 64 v)).toInt = v ∧
+        (store_array_designator_end (BitVec.ofInt 64 v)).toInt = v ∧
+        (store_count_array_init_elements_i (BitVec.ofInt 64 v)).toInt = v) ∧
+    (∀ v : Int, ITy.inRange .i64 v = true →
+        (store_stmt_begin (BitVec.ofInt 64 v)).toInt = v ∧ (store_stmt_end (BitVec.ofInt 64 v)).toInt = v) ∧
+    (∀ (fp : FpEnv) (t : ITy) (e : CExpr) (v : Int), Spec.Const.eval e = some v →
+        storeGvar fp (descr t) (elabE e) (BitVec.ofInt 64 v) = .ok (objBits t (t.convert v))) := by
+  refine ⟨fun v h => ?_, fun v h => ⟨store_long v h, store_long v h⟩, fun fp t e v h => store_gvar fp t e v (fold_main fp e v h)⟩
+  have := store_int v h
+  exact ⟨this, this, this, this, this, this, this, this⟩
+
+/-- `static _Bool b = 256;` stores 1, `static unsigned char c = 300;` stores 44 (kernel-evaluated instances) -/
+example : storeGvar noFp (descr .bool) (elabE (.lit .i32 256)) (BitVec.ofInt 64 256) = .ok 1#64 := by decide
+example : storeGvar noFp (descr .u8) (elabE (.lit .i32 300)) (BitVec.ofInt 64 300) = .ok 44#64 := by decide
 
 end ChibiVerif.Props.C07
